@@ -13,7 +13,11 @@ def main():
     try:
         mod = importlib.import_module(a.pid.lower())
         ck = Check(a.pid, a.tier, seed, a.replay)
-        rc = mod.run(ck)
+        sys.stdout = open(os.devnull, "w")      # the library prints progress messages; results go to sys.__stdout__
+        try:
+            rc = mod.run(ck)
+        finally:
+            sys.stdout = sys.__stdout__
     except Infra as e:
         print("INFRASTRUCTURE-ERROR %s: %s" % (a.pid, e))
         sys.exit(2)
